@@ -13,6 +13,7 @@ import (
 	"testing"
 	"time"
 
+	"github.com/trustbloc/sidetree-core-go/pkg/api/operation"
 	"github.com/trustbloc/sidetree-core-go/pkg/document"
 	"pgregory.net/rapid"
 
@@ -21,6 +22,7 @@ import (
 	"verifharness/kit/hist"
 	"verifharness/kit/refmodel"
 	"verifharness/kit/res"
+	"verifharness/kit/wire"
 )
 
 func TestMain(m *testing.M) { ev.Main(m, "C06") }
@@ -149,6 +151,13 @@ func evalCase(c *Case) (kind, sig, msg string, removedApplied bool) {
 	warm := []document.ResolutionOption{document.WithVersionTime(rfc3339(1 << 40))}
 	if len(c.Ops) > 0 {
 		warm = append(warm, document.WithVersionID(c.Ops[len(c.Ops)-1].Desc.Ref), document.WithVersionTime(rfc3339(c.Ops[0].Desc.Time)))
+	}
+	if len(pub) > 1 {
+		// ... and a request with a caller-supplied additional operation (a copy of the first stored one under another
+		// reference, anchored right behind it): what one request brings along must not stay behind in the node's store
+		extra := wire.CopyOp(pub[0])
+		extra.CanonicalReference, extra.TransactionNumber = "ref-brought-along", extra.TransactionNumber+1
+		warm = append(warm, document.WithAdditionalOperations([]*operation.AnchoredOperation{extra}))
 	}
 	got := res.ResolveAfter(pc, c.Suffix, pub, unpub, warm, opt)
 	if got.Panic != "" {
